@@ -34,7 +34,8 @@ def kvparse(out):
 def worker(sh):
     rng = sh.rng
     lines, meta = [], []
-    masters = ['-'] * 6 + [C.le(v, 32) for v in (0, 1, R - 1, R, R + 5, (1 << 256) - 1, 2 * R + 3)]
+    import wkd
+    masters = ['-'] * 6 + [C.le(v, 32) for v in (0, 1, R - 1, R, R + 5, (1 << 256) - 1, 2 * R + 3)] + [C.le(wkd.algebraic_scalar(rng), 32) for _ in range(6)] + [C.le(wkd.big_id(rng), 32) for _ in range(3)]
     keylens = [0, 1, 16, 32, 33, 64, 255, 1000]
     n = sh.pick(30, 300)
     for i in range(n):
